@@ -39,15 +39,15 @@ SHRINK_CALL_CAP = {"quick": 400, "thorough": 3000}
 
 def _guarded(mod, ev, holder, tier):
     """Wrap mod.check_case: known findings pass (counted); harness errors abort; shrinking is call-capped."""
-    state = {"failing": None, "calls_after_fail": 0}
+    state = {"failing": None, "calls_after_fail": 0, "all_failing": set()}
     cap = SHRINK_CALL_CAP[tier]
 
     def run(case, fn=None):
         # fn is given by state machines (one step of a history): no shrink cap there, a skipped step would corrupt the history
         if fn is None and state["failing"] is not None:
             state["calls_after_fail"] += 1
-            if state["calls_after_fail"] > cap and canon(case) != state["failing"]:
-                return  # stop exploring shrinks; Hypothesis will replay the best known failure
+            if state["calls_after_fail"] > cap and canon(case) not in state["all_failing"]:
+                return  # stop exploring shrinks; Hypothesis will replay the best failure it has seen (one of all_failing)
         holder["case"] = case
         try:
             if fn is not None:
@@ -60,6 +60,7 @@ def _guarded(mod, ev, holder, tier):
                 ev.known_excluded[known["id"]] += 1
                 return
             state["failing"] = canon(case)
+            state["all_failing"].add(state["failing"])
             holder["violation"] = {"kind": v.kind, "signature": v.sig, "detail": v.detail[:4000]}
             raise
         except HarnessError:
@@ -133,8 +134,24 @@ def run_shard(pid: str, tier: str, seed: int, shard: int, nshards: int) -> dict:
     except hypothesis.errors.FailedHealthCheck:
         out["error"] = "generator health check failed:\n" + traceback.format_exc()
     except hypothesis.errors.Flaky:
-        # a non-deterministic oracle is a harness defect, never a violation
+        # Hypothesis saw the same case fail and then pass (or fail differently). If the recorded case still violates the
+        # property when re-run outside Hypothesis it is reported as a violation (the code under test may itself be
+        # order- or id-dependent); if it never does, the non-determinism is the harness's and that is an error.
         out["error"] = "flaky (non-deterministic) check:\n" + traceback.format_exc()
+        if holder.get("violation") and holder.get("case") is not None and not hasattr(mod, "machine"):
+            hits = 0
+            for _ in range(3):
+                try:
+                    mod.check_case(holder["case"], Evidence(tier))
+                except Violation as v:
+                    if match_open(mod.ID, v.sig) is None:
+                        hits += 1
+                        holder["violation"] = {"kind": v.kind, "signature": v.sig, "detail": (v.detail + f" [non-deterministic: seen again outside Hypothesis]")[:4000]}
+                except Exception:  # noqa: BLE001
+                    pass
+            if hits:
+                out["error"] = None
+                out["violation"] = {**holder["violation"], "case": holder["case"], "seed": shard_seed}
     except Exception:
         if holder.get("violation"):
             out["violation"] = {**holder["violation"], "case": holder.get("case"), "seed": shard_seed}
